@@ -14,6 +14,7 @@ Definition cell_J (c : cell) : J :=
   | CNaN i => JL [JS "nan"; JZ (Z.of_N i)]
   | CStr s => JL [JS "s"; JS s]
   | CDate us => JL [JS "d"; JZ us]
+  | CInf n => JL [JS "inf"; JZ (if n then -1 else 1)]
   end.
 Fixpoint insert_k {V} (kv : string * V) (l : list (string * V)) : list (string * V) :=
   match l with
